@@ -340,11 +340,14 @@ class Decision:
 
 def explore(run_once: Callable[[Callable[[Scheduler, list[str]], str | None]], Any],
             max_preemptions: int, max_executions: int = 100000,
-            on_result: Callable[[list[str], Any], bool | None] | None = None) -> dict[str, int]:
+            on_result: Callable[[list[str], Any], bool | None] | None = None,
+            shard: tuple[int, int] | None = None) -> dict[str, int]:
     """Enumerate every schedule with at most `max_preemptions` preemptions.
 
     run_once(policy) must build a fresh scenario, run it under `policy` and return a result.
     The policy records the decisions; alternatives are pushed as new prefixes.
+    shard=(k, n): this call explores the root execution and the k-th of n slices of its alternatives (with
+    everything below them); the n calls together cover exactly what one unsharded call covers.
     """
     # priority queue ordered by the number of preemptions used: every schedule with k preemptions is
     # executed before any schedule with k+1, so a truncated exploration is still complete for small k
@@ -398,13 +401,18 @@ def explore(run_once: Callable[[Callable[[Scheduler, list[str]], str | None]], A
             break
         # push alternatives discovered beyond the prefix
         used_at = used
+        nalt = 0
         for i in range(len(prefix), len(decisions)):
             d = decisions[i]
             for alt in d.free_alts:
-                heapq.heappush(stack, (used_at, next(tick), taken[:i] + [alt]))
+                nalt += 1
+                if shard is None or prefix or nalt % shard[1] == shard[0]:
+                    heapq.heappush(stack, (used_at, next(tick), taken[:i] + [alt]))
             if used_at < max_preemptions:
                 for alt in d.preemptive_alts:
-                    heapq.heappush(stack, (used_at + 1, next(tick), taken[:i] + [alt]))
+                    nalt += 1
+                    if shard is None or prefix or nalt % shard[1] == shard[0]:
+                        heapq.heappush(stack, (used_at + 1, next(tick), taken[:i] + [alt]))
     if not stack:
         stats["complete_preemption_level"] = max_preemptions
     return stats
